@@ -109,7 +109,15 @@ class NadaFunction(Generic[T, R]):
     def __call__(self, *args, **kwargs) -> R:
         # Every parameter gets exactly one argument, as in a Python call (TypeError
         # otherwise); keyword arguments take the position of the parameter they name.
-        args = inspect.signature(self.function).bind(*args, **kwargs).args
+        bound = inspect.signature(self.function).bind(*args, **kwargs)
+        if bound.kwargs:
+            # Keyword-only parameters are not parameters of the Nada function (its body was
+            # traced with their defaults): a value given for one would be dropped.
+            raise TypeError(
+                f"{self.function.__name__}() got a value for the keyword-only parameter(s) "
+                f"{', '.join(bound.kwargs)}, which a Nada function call cannot bind"
+            )
+        args = bound.args
         if len(args) != len(self.args):
             raise TypeError(
                 f"{self.function.__name__}() takes {len(self.args)} arguments but {len(args)} were given"
